@@ -457,6 +457,202 @@ def gen_values(rnd, n, out):
         out.append(Case(lines, 'view-value-probe'))
 
 
+ROUTES = ['sc', 'c1', 'c2', 'vec', 'val', 'ma', 'nd']
+
+# every public entry point the drivers call: case-language token -> what it is
+ENTRY_POINTS = {
+    'slice': 'util::dataSlice(array, start, end, units, RangeMatch) and the 4-argument form (mode defaulted)',
+    'slice3': 'util::dataSlice(array, start, end) - units and mode defaulted',
+    'indata': 'util::positionAndExtentInData(array, position, count)',
+    'posin': 'util::positionInData(array, position)',
+    'dimunit': 'util::getDimensionUnit(Dimension)',
+    'p2i': 'util::positionToIndex(position, unit, PositionMatch, const Dimension &) - exported generic dispatcher',
+    'p2iv': 'util::positionToIndex(starts, ends, units, RangeMatch, const Dimension &) - exported generic dispatcher, 1..3 entries',
+    'view': 'DataView::DataView(array, count, offset)',
+    'vextent': 'DataView::dataExtent()',
+    'vsetextent': 'DataView::dataExtent(const NDSize &)',
+    'vtype': 'DataView::dataType()',
+    'vread': 'DataSet::getData(DataType, void *, count, offset) on a DataView (ioRead)',
+    'vwrite': 'DataSet::setData(DataType, const void *, count, offset) on a DataView (ioWrite)',
+    'vget': 'template DataSet::getData(T &, offset) on a DataView, scalar / std::vector',
+    'vset': 'template DataSet::setData(const T &, offset) on a DataView, scalar / std::vector',
+    'aget': 'template DataSet::getData(T &, offset) on the DataArray (control)',
+    'aset': 'template DataSet::setData(const T &, offset) on the DataArray (control)',
+    'aread': 'DataArray::getData(DataType, void *, count, offset) - whole array',
+    'tgetall': 'template DataSet::getData(T &) on a DataView x {scalar, T[N], T[M][N], vector, valarray, multi_array, NDArray}',
+    'tget3': 'template DataSet::getData(T &, count, offset) on a DataView x the 7 container kinds',
+    'tgetat': 'template DataSet::getData(T &, offset) on a DataView x the 7 container kinds',
+    'tsetall': 'template DataSet::setData(const T &) on a DataView x the 7 container kinds (reaches DataView::dataExtent(NDSize))',
+    'tset': 'template DataSet::setData(const T &, offset) on a DataView x the 7 container kinds',
+}
+
+
+def gen_typed(rnd, n, out):
+    """every template route of DataSet.hpp through a view, for every typed container kind.  The three-argument read with an
+    EMPTY count into a value of rank 0 (scalar, NDArray) transfers the whole window on the unrepaired tree (the driver
+    aborts): such a call is the last line of its case."""
+    for _ in range(n):
+        rank = rnd.choice([1, 1, 2, 3])
+        shape = [rnd.choice([2, 3, 5, 6, 8]) for _ in range(rank)]
+        hdr = arr_line(shape, [Dim('L', n=0) for _ in shape])
+        origin = [rnd.randrange(0, n_) for n_ in shape]
+        style = rnd.random()
+        if style < 0.2:
+            window = [1] * rank
+        elif style < 0.45 and rank > 1:
+            window = [1] * rank                                # one non-singleton dimension: what a vector can hold
+            j = rnd.randrange(rank)
+            window[j] = rnd.randrange(1, shape[j] - origin[j] + 1)
+        else:
+            window = [rnd.randrange(1, n_ - o + 1) for o, n_ in zip(origin, shape)]
+        one = all(w == 1 for w in window)
+        lines = [hdr, 'view %s ; %s' % (' '.join(map(str, window)), ' '.join(map(str, origin)))]
+
+        def ext_for(route):
+            if route == 'sc':
+                return []
+            if route == 'c1':
+                return [rnd.choice([3, 5])]
+            if route == 'c2':
+                return [2, 3]
+            if route in ('vec', 'val'):
+                return [rnd.choice([0, 1, 2, 3, window[-1], max(window)])]
+            if route == 'ma':
+                r = rnd.choice([rank, rank, rank, rnd.choice([1, 2, 3])])
+                return [rnd.choice([1, 2, window[i] if i < rank else 2]) for i in range(r)]
+            r = rnd.choice([rank, rank, 0, rnd.choice([1, 2, 3])])
+            return [rnd.choice([1, 2, window[i] if i < rank else 2]) for i in range(r)]
+
+        def offset(kind):
+            if kind == 'empty':
+                return []
+            if kind == 'zeros':
+                return [0] * rank
+            if kind == 'inside':
+                return [rnd.randrange(0, w) for w in window]
+            if kind == 'outside':
+                o = [rnd.randrange(0, w) for w in window]
+                j = rnd.randrange(rank)
+                o[j] = window[j] + rnd.choice([0, 1, 3])
+                return o
+            return [0] * (rank + 1)
+
+        def count_for(route, ext, off):
+            k = rnd.random()
+            if k < 0.12:
+                return []
+            if k < 0.3 and ext and len(ext) == rank:
+                return list(ext)
+            base = off if len(off) == rank else [0] * rank
+            c = [rnd.randrange(1, max(1, w - o) + 1) for w, o in zip(window, base)]
+            if route in ('vec', 'val', 'c1') and rnd.random() < 0.7:
+                j = rnd.randrange(rank)
+                c = [1] * rank
+                c[j] = rnd.choice([1, 2, 3, max(1, window[j] - base[j])])
+            if k > 0.9:
+                j = rnd.randrange(rank)
+                c[j] = window[j] + 1
+            return c
+
+        def risky3(route, cnt, off):
+            return cnt == [] and route in ('sc', 'nd') and all(x == 0 for x in off) and not one
+
+        for _ in range(rnd.randrange(5, 10)):
+            op = rnd.choice(['tgetall', 'tgetall', 'tget3', 'tget3', 'tget3', 'tgetat', 'tgetat', 'tset', 'tset', 'tsetall', 'vsetextent', 'vtype'])
+            route = rnd.choice(ROUTES)
+            ext = ext_for(route)
+            e = ' '.join(map(str, ext))
+            off = offset(rnd.choice(['zeros', 'inside', 'inside', 'outside', 'empty', 'rank']))
+            o = ' '.join(u(x) for x in off)
+            if op == 'tgetall':
+                lines.append('tgetall %s %s' % (route, e))
+            elif op == 'tget3':
+                cnt = count_for(route, ext, off)
+                if risky3(route, cnt, off):
+                    continue
+                lines.append('tget3 %s %s ; %s ; %s' % (route, e, ' '.join(map(str, cnt)), o))
+            elif op == 'tgetat':
+                lines.append('tgetat %s %s ; %s' % (route, e, o))
+            elif op == 'tset':
+                lines.append('tset %s %s ; %s ; %d' % (route, e, o, rnd.choice([100, 500, -7])))
+                if rnd.random() < 0.5:
+                    lines.append('aread')
+            elif op == 'tsetall':
+                lines.append('tsetall %s %s ; %d' % (route, e, rnd.choice([100, 900])))
+                lines.append('aread')
+            elif op == 'vsetextent':
+                lines.append('vsetextent %s' % ' '.join(map(str, rnd.choice([window, shape, [1] * rank]))))
+            else:
+                lines.append('vtype')
+        lines.append('aread')
+        route = rnd.choice(['sc', 'nd'])
+        lines.append('tget3 %s %s ;  ; %s' % (route, '' if route == 'sc' else '1', ' '.join(u(x) for x in offset(rnd.choice(['empty', 'zeros'])))))
+        out.append(Case(lines, 'view-typed-probe'))
+
+
+def gen_access(rnd, n, out):
+    """the remaining public routes of util/dataAccess on arrays with random descriptors (no writes: the ids are the data)"""
+    rules = ['L', 'LE', 'GE', 'G', 'EQ']
+    for _ in range(n):
+        rank = rnd.choice([1, 2, 2, 3])
+        shape = [rnd.choice([1, 2, 3, 4, 5, 6]) for _ in range(rank)]
+        dims = [make_dim(rnd, m) for m in shape]
+        lines = [arr_line(shape, dims)]
+        for _ in range(rnd.randrange(6, 12)):
+            op = rnd.choice(['slice3', 'slice3', 'posin', 'dimunit', 'p2i', 'p2i', 'p2iv', 'p2iv'])
+            j = rnd.randrange(rank)
+            d, m = dims[j], shape[j]
+            if op == 'slice3':
+                qs = [rnd.choice(QUALITIES) if rnd.random() < 0.3 else 'inside' for _ in range(rank)]
+                pe = [positions_for(rnd, dd, mm, q) for dd, mm, q in zip(dims, shape, qs)]
+                lines.append('slice3 %s ; %s' % (' '.join(enc(x[0]) for x in pe), ' '.join(enc(x[1]) for x in pe)))
+            elif op == 'posin':
+                pos = [rnd.choice([0, mm - 1, mm, mm + 1, rnd.randrange(0, mm)]) for mm in shape]
+                r = rnd.random()
+                if r < 0.1:
+                    pos = pos + [0]
+                elif r < 0.2:
+                    pos[rnd.randrange(rank)] = U64 - 1
+                lines.append('posin %s' % ' '.join(u(x) for x in pos))
+            elif op == 'dimunit':
+                lines.append('dimunit %d' % j)
+            else:
+                def unit_for():
+                    r = rnd.random()
+                    if r < 0.35 or not d.has_unit():
+                        return rnd.choice(['none', 'none', 'ms', 'mV']) if r < 0.5 else 'none'
+                    if r < 0.6:
+                        return d.unit
+                    if r < 0.9:
+                        return rnd.choice(FAMILY[UNITS[d.unit][1]])
+                    return rnd.choice(['mV', 's', 'kHz'])
+                if op == 'p2i':
+                    s_, e_ = positions_for(rnd, d, m, rnd.choice(['inside', 'inside', 'beyond', 'below']))
+                    un = unit_for()
+                    p = s_
+                    if un != 'none' and d.has_unit() and UNITS[un][1] == UNITS[d.unit][1]:
+                        p = s_ / si_scaling(un, d.unit)
+                    lines.append('p2i %d %s %s %s' % (j, enc(p), un, rnd.choice(rules)))
+                else:
+                    k = rnd.choice([1, 1, 2, 3])
+                    st, en, us = [], [], []
+                    for _ in range(k):
+                        s_, e_ = positions_for(rnd, d, m, rnd.choice(['inside', 'inside', 'point', 'reversed', 'beyond']))
+                        un = unit_for()
+                        if un != 'none' and d.has_unit() and UNITS[un][1] == UNITS[d.unit][1]:
+                            f = si_scaling(un, d.unit)
+                            s_, e_ = s_ / f, e_ / f
+                        st.append(s_); en.append(e_); us.append(un)
+                    r = rnd.random()
+                    if r < 0.08:
+                        en = en[:-1]
+                    elif r < 0.16:
+                        us = us[:-1]
+                    lines.append('p2iv %d %s ; %s ; %s ; %s' % (j, rnd.choice(['incl', 'excl']), ' '.join(enc(x) for x in st),
+                                                                  ' '.join(enc(x) for x in en), ' '.join(us)))
+        out.append(Case(lines, 'access-routes'))
+
+
 def directed():
     """the probes of DESIGN.md section 9 and the repository's own test requests"""
     e = enc
@@ -589,11 +785,26 @@ class C17(Prop):
         gen_views(rnd, (600 if quick else 8000) * k, out)
         gen_indata(rnd, (40 if quick else 400) * k, out)
         gen_values(rnd, (80 if quick else 800) * k, out)
+        gen_typed(rnd, (120 if quick else 1500) * k, out)
+        gen_access(rnd, (100 if quick else 1200) * k, out)
         # on the pinned tree some hundred cases abort the driver (read past the argument vectors, HDF5 overrun after a wrapped
         # window test); spread them evenly over the driver processes (the engine gives up on a shard after 400 restarts)
         head, tail = out[:len(directed())], out[len(directed()):]
         rnd.shuffle(tail)
+        self._routes = {}
+        for c in head + tail:
+            for l in c.lines:
+                t = l.split(' ')
+                key = t[0] + (':' + t[1] if t[0] in ('tgetall', 'tget3', 'tgetat', 'tsetall', 'tset') else '')
+                self._routes[key] = self._routes.get(key, 0) + 1
         return head + tail
+
+    def extra_checks(self, ctx):
+        # which public entry points the drivers call and how many lines of this run went through each
+        ctx['ev']['entry_points'] = ENTRY_POINTS
+        ctx['ev']['typed_container_routes'] = ROUTES
+        ctx['ev']['query_lines_per_route'] = dict(sorted(getattr(self, '_routes', {}).items()))
+        return []
 
     # ---- classification of failures (stable signatures for known-findings.json) ----
     def first_diff(self, impl, spec):
@@ -632,6 +843,12 @@ class C17(Prop):
             return {'kind': 'slice', 'impl': a.split(' ')[0], 'spec': b.split(' ')[0], 'case': case.lines[k]}
         if op == 'indata':
             return {'defect': 'extent-check-wraps', 'kind': 'indata'}
+        if op in ('tgetall', 'tget3', 'tgetat', 'tsetall', 'tset'):
+            secs = ' '.join(t[1:]).split(';')
+            if op == 'tget3' and len(secs) >= 2 and secs[1].strip() == '':
+                # three-argument read template with an empty count through a view
+                return {'defect': 'tget3-empty-count', 'kind': 'view'}
+            return {'kind': 'typed', 'op': op, 'route': t[1], 'impl': a.split(' ')[0], 'spec': b.split(' ')[0], 'case': case.lines[k]}
         if op in ('vget', 'vset', 'aget', 'aset'):
             if t[1] == 's' and op[0] == 'v':
                 # scalar value through a view: the templates of DataSet.hpp hand an empty count on
